@@ -62,6 +62,17 @@ def offsets : View → List Nat → List Nat
 def showView (v : View) (shape : List Nat) : String :=
   s!"shape={showNats v.shape} data={showNats (offsets v (strides shape))}"
 
+/-- NumPy result with an axis moved to the front: iterate that axis outermost. -/
+def showNView (n : NView) (shape : List Nat) : String :=
+  match n.front with
+  | none => showView n.view shape
+  | some p =>
+    (match n.view[p]? with
+     | some (.pick srcs) =>
+       let data := srcs.flatMap (fun s => offsets (n.view.set p (.drop s)) (strides shape))
+       s!"front={p} shape={showNats n.shape} data={showNats data}"
+     | _ => showView n.view shape)
+
 def showRes (r : Except Err View) (shape : List Nat) : String :=
   match r with
   | .ok v => showView v shape
@@ -82,7 +93,10 @@ def handle (args : List String) : String :=
         (match planEager cs shape with
          | .ok p => showPlan p ++ " | " ++ showRes (runPlan p (View.init shape)) shape
          | .error e => showErr e ++ " | " ++ showErr e)
-      | "numpy" => showRes (numpyIndex cs shape) shape
+      | "numpy" =>
+        (match numpyIndexT cs shape with
+         | .ok n => showNView n shape
+         | .error e => showErr e)
       | _ => "bad-op"
     | _, _ => "bad-op"
   | _ => "bad-op"
